@@ -277,8 +277,8 @@ def check_c12(ctx):
 
     step = 6 if quick else 1
     for i, d in enumerate(field):
-        if any(f["base"] == "inline" or f["name"] in ("int", "my-field") for t in d["openapi"]["types"] for f in t["fields"]):
-            continue   # inline fields are outside the exportable subset; `int` and `my-field` are not field names a Sysl source can spell plainly
+        if any(f["base"] == "inline" or f["name"] in ("int", "my-field", "$1x", ".5x") for t in d["openapi"]["types"] for f in t["fields"]):
+            continue   # inline fields are outside the exportable subset; `int`, `my-field`, `$1x` and `.5x` are not field names a Sysl source can spell plainly
         add(d["export"], "swagger", "yaml" if i % 2 else "json")
         if i % step == ctx.seed % step:
             add(d["export"], "openapi3", "json" if i % 2 else "yaml")
